@@ -83,6 +83,10 @@ func (g *Gen) genRoundTripHistory() {
 	if exact {
 		x = " x"
 	}
+	if r.Bool(20) {
+		g.genFineRoundTrip(sg, exact || r.Bool(40))
+		return
+	}
 	if r.Bool(25) {
 		sg.line("K 1 1 pag%s", x)
 		sg.fillSketch(1, r.Range(1, 40), 100) // unit weights: buffered entries, encoded as index deltas
@@ -409,4 +413,41 @@ func (g *Gen) genTruncationHistory() {
 		sg.dec(h, "-", 1, sg.storeSpec(allKinds), exact, bs) // no mapping anywhere
 	}
 	_ = math.Abs
+}
+
+// genFineRoundTrip: a handful of full-mantissa weights (9-byte varfloats for the bins, the zero
+// count and the exact total count), encoded and decoded by both decoders into several store kinds.
+func (g *Gen) genFineRoundTrip(sg *skGen, exact bool) {
+	r := g.rng
+	sg.fine = true
+	x := ""
+	if exact {
+		x = " x"
+	}
+	sg.line("K 1 1 %s%s", sg.storeSpec(nonCollapsing), x)
+	n := r.Range(1, 3)
+	for i := 0; i < n; i++ {
+		sg.add(1, sg.nextValue(), sg.weight(0))
+	}
+	omit := r.Bool(50)
+	sg.ensureValues(1)
+	sg.encchk(1, omit)
+	bs, ok := sg.bytesOf(1, omit)
+	if !ok {
+		return
+	}
+	prov := "-"
+	if omit {
+		prov = "1"
+	}
+	// the exact-variant decoder and the plain decoder (which must skip the statistics blocks)
+	if exact && sg.dec(2, prov, 1, sg.storeSpec(nonCollapsing), true, bs) == "ok" {
+		sg.ensureValues(2)
+		sg.obs(2)
+	}
+	if sg.dec(3, prov, 1, sg.storeSpec(nonCollapsing), false, bs) == "ok" {
+		sg.ensureValues(3)
+		sg.obs(3)
+	}
+	sg.obs(1)
 }
